@@ -1164,10 +1164,18 @@ fn builtin_rand(args: Vec<Rc<Object>>) -> Result<Rc<Object>, String> {
     };
     match max.as_ref() {
         Object::Integer(n) => {
+            if *n < 0 {
+                return Err(String::from("argument should not be negative"));
+            }
             let r = rng.gen_range(0..=*n) as i64;
             Ok(Rc::new(Object::Integer(r)))
         }
         Object::Float(n) => {
+            if !n.is_finite() || *n < 0.0 {
+                return Err(String::from(
+                    "argument should be a finite, non-negative number",
+                ));
+            }
             let r = rng.gen_range(0.0..=*n) as f64;
             Ok(Rc::new(Object::Float(r)))
         }
